@@ -500,13 +500,13 @@ Section IntVal.
   Qed.
 End IntVal.
 
-(* ---- where the code leaves the text ---- *)
+(* ---- history: where the code BEFORE the repairs (cfg_old) left the text ---- *)
 (* (1) when strtod reports ERANGE (overflow, or an inexact subnormal) a
    well-formed literal is taken for a field code *)
 Theorem erange_literal_is_field_code :
   let tok := [49; 101; 57; 57; 57] (* 1e999 *) in
   toktonum unit (fun _ => tt) (fun _ => true) (fun _ => tt) tt (fun _ => false) (fun _ => false) (fun _ => 0%Z)
-           (fun _ => false) cfg_current false 10 WFloat tok = NotNumber unit /\ spec_is_number tok = true.
+           (fun _ => false) cfg_old false 10 WFloat tok = NotNumber unit /\ spec_is_number tok = true.
 Proof. split; vm_compute; reflexivity. Qed.
 
 (* (2) an integer literal below INT64_MIN that still fits 64 bits in magnitude
@@ -514,7 +514,7 @@ Proof. split; vm_compute; reflexivity. Qed.
 Definition minus_2_63_minus_1 : list N :=
   [45; 57;50;50;51;51;55;50;48;51;54;56;53;52;55;55;53;56;48;57].
 Theorem negative_overflow_sign_flip :
-  scan_part unit (fun _ => tt) (fun _ => false) tt (fun _ => false) cfg_current true 0 true minus_2_63_minus_1
+  scan_part unit (fun _ => tt) (fun _ => false) tt (fun _ => false) cfg_old true 0 true minus_2_63_minus_1
     = Some (TUInt unit 9223372036854775807%Z, 20%nat) /\
   spec_int_value 0 minus_2_63_minus_1 = Some (-9223372036854775809)%Z.
 Proof. split; vm_compute; reflexivity. Qed.
